@@ -125,4 +125,22 @@ CLAIMED['C20'] = dict(
     technique='Lean 4 invariant proof over the lifecycle model + regenerated AST facts + differential correspondence',
 )
 
+CLAIMED['C02'] = dict(
+    text='Closed-world theorems (Props/C02.lean, ~7000 lines of machinery in Proofs/) about the executable model of the whole '
+         'factory floor (all device kinds incl. batchers, gates, shared and nested groups, resources, failures, maintenance, '
+         'scripts): the strengthened conservation invariant ConsS (leaf parts inside non-sink devices ++ delivered ++ lost is a '
+         'permutation of the generated leaf parts, generated has no duplicates, no top-level part is held twice, batches are one '
+         'level deep, ...) holds for fresh worlds and is preserved by initialisation, constructor calls, every scripted '
+         'operation, every admissible event action (cons_exec\'), every step and every run of the event loop, with no bound on '
+         'steps or sizes; conservation_reachable: for every fresh, statically well-formed world (scripts without rewiring / '
+         'creation, failures only on machines, wiring closed under reachability) and every loop fuel, generated = inside + '
+         'delivered + lost and nothing is in two places. Also: a handler-like device accepts only into empty slots; a source never '
+         'exceeds its budget (initial + adjustments). The first, stronger formulation was refuted by machine-checked '
+         'counterexamples kept in the file (the model allows a failing sink and dangling device indices, which the library does '
+         'not). Tie: families floor/floorc/floors vs the real code on slots, part contents, sink counts, failure log and '
+         'shutdown callbacks; census monitor on implementation traces after every event.',
+    note=BASE_NOTE + ' Hypotheses of conservation_reachable: Static (no rewire/create in scripts, failures only on non-sinks, every device reachable by a hand-over exists). Dynamic rewiring/creation is covered by the per-action theorems under ActOK.',
+    technique='Lean 4 closed-world invariant proof by induction over events + differential correspondence + census monitor',
+)
+
 NOT_CLAIMED = {}
